@@ -1,24 +1,40 @@
 (* C03 (core): soundness of the inference engine model w.r.t. the declarative
-   subtype order [Sub], for the constraint-free fragment (schemas with
-   s_constrs = [], programs of CInst / CApply commands).
+   subtype order [Sub], for the constraint-free fragment P (schemas with
+   s_constrs = [], programs of CInst / CApply commands; unify runs in subtype
+   mode without skip flags).
 
    Semantics.  A grounding [th : nat -> ty] SATISFIES a store s ([sat th s])
    when every [th v] is a well-formed type and
      - a bound variable denotes its binding:  th v = den th t,
      - an unbound variable with lower bound l denotes a base type b with
-       l <= b in the operator order (upper bound: b <= u).
+       l <= b in the operator order (upper bound u: b <= u).
    [den th t] replaces the variables of a term by their denotations; under
-   [sat th s] it commutes with following bindings ([den_follow]), so no
-   store argument is needed.
+   [sat th s] it commutes with following bindings ([den_follow]), so it needs
+   no store argument: the denotation of a term is the same in every store
+   that th satisfies.
 
    Refinement.  Every successful engine operation s ~> s' only refines the
-   store: [le s s'] = no variable is deallocated and [sat th s' -> sat th s].
-   Soundness of unify (subtype mode): every grounding satisfying the final
-   store makes the left term a subtype of the right one.  Both are proved by
-   one induction on fuel over unify / bind / above / below / fix_ty
-   ([specs_all]), under a forward invariant [J]: all constraint sets empty
-   (fragment P), bindings well-scoped and arity-correct, bounds are proper base
-   operators with lower <= upper. *)
+   store: [le s s'] = no variable is deallocated and [sat th s' -> sat th s];
+   [fr s s'] = bound variables stay bound and keep their bounds, and a variable
+   that carries a bound when it gets bound denotes a base type.
+   Soundness of unify: every grounding satisfying the final store makes the
+   left term a subtype of the right one; bind: th v = den th t; above/below:
+   th v is a base type above/below the new bound; fix_ty: the result denotes
+   what the argument denotes.  All by ONE induction on fuel ([specs_all]) under
+   a forward invariant [J]: all constraint sets empty (fragment P), bindings
+   well-scoped and arity-correct, bounds are proper base operators with
+   lower <= upper.  No use of the store invariant of Infer/Inv.v is needed for
+   soundness; acyclicity (Inv.v, [engine_inv]) is used for satisfiability.
+
+   Results: [core_sound] (StepSem for EVERY satisfying grounding),
+   [core_StepHolds] (the same as Witness.StepHolds for every list-grounding
+   within the bounds), [sat_extend]/[core_satisfiable] (every assignment of the
+   unbound variables within their bounds extends to a satisfying grounding),
+   [core_bounded] (a variable with a bound is never bound to a compound type).
+
+   Only successful runs are specified ([tr]): after an error the store may be
+   inconsistent (e.g. bind sets the binding before it checks the bounds), and
+   run_cmds stops at the first error. *)
 From Coq Require Import List Arith Bool Lia.
 Import ListNotations.
 From TF Require Import Base.Hier Base.Ty Sub.SubSpec Infer.Store Infer.Engine Infer.Run
@@ -1564,5 +1580,122 @@ Proof.
   - right. rewrite Ef, Er, E1, E2. auto.
 Qed.
 
-(*NEXT*)
+(* ------------------------------------------------------------------ *)
+(* a variable that carries a bound is never resolved to a compound type *)
+(* ------------------------------------------------------------------ *)
+Theorem core_final fuel sc prog vals s : progP 0 prog ->
+  run_cmds H fuel prog 0 [] (empty_store sc) = (None, vals, s) ->
+  J s /\ lef (empty_store sc) s /\ Forall (tg (len s)) vals.
+Proof.
+  intros P R. destruct (run_cmds_good fuel prog 0 [] (empty_store sc) vals s (J_empty sc)) as (I & L & F & _);
+    auto.
+Qed.
+
+Theorem core_bounded fuel sc prog vals s : progP 0 prog ->
+  run_cmds H fuel prog 0 [] (empty_store sc) = (None, vals, s) ->
+  forall v t o args, c_bound (cell_of s v) = Some t ->
+    (c_lower (cell_of s v) <> None \/ c_upper (cell_of s v) <> None) ->
+    follow s t = O o args -> args = [].
+Proof.
+  intros P R v t o args Hv Hb Ef.
+  destruct (core_final fuel sc prog vals s P R) as (I & [_ Fr] & _).
+  destruct (core_satisfiable fuel sc prog vals s P R) as (th & S).
+  assert (B : isbase (th v)).
+  { apply (fr_new _ _ Fr v); auto; [|congruence].
+    unfold cell_of. cbn. destruct v; reflexivity. }
+  destruct (S v) as [_ Sv]. rewrite Hv in Sv.
+  rewrite <- (den_follow th s t S), Ef in Sv. cbn [den] in Sv.
+  destruct B as (b & Eb). rewrite Eb in Sv. injection Sv as _ Em.
+  destruct args; [reflexivity|discriminate].
+Qed.
+
+(* the mechanism: bind rejects a compound type for a bounded variable *)
+Lemma bind_bounded_compound f v o args s : c_bound (cell_of s v) = None ->
+  (c_lower (cell_of s v) <> None \/ c_upper (cell_of s v) <> None) -> basic H o = false ->
+  exists s', bind H (S f) v (O o args) s = MEr ETypeMismatch s'.
+Proof.
+  intros Hv Hb Eb. rewrite bind_S. unfold bindM at 1. unfold gets at 1. cbv beta iota. rewrite Hv.
+  unfold set_wild, set_bound, upd_cell, modify, bindM. cbv beta iota. rewrite Eb.
+  destruct (c_lower (cell_of s v)) as [l|]; [eexists; reflexivity|].
+  destruct (c_upper (cell_of s v)) as [u|]; [eexists; reflexivity|].
+  destruct Hb; congruence.
+Qed.
+
+(* reading [sat] with the declarative order *)
+Lemma sat_Sub th s : J s -> sat th s -> forall v, c_bound (cell_of s v) = None ->
+  (forall l, c_lower (cell_of s v) = Some l -> exists b, th v = TOp b [] /\ Sub H (TOp l []) (TOp b [])) /\
+  (forall u, c_upper (cell_of s v) = Some u -> exists b, th v = TOp b [] /\ Sub H (TOp b []) (TOp u [])).
+Proof.
+  intros I S v Hv. destruct (S v) as [Wv Sv]. rewrite Hv in Sv. destruct Sv as [Sl Su].
+  pose proof (J_b s I v) as (Bl & Bu & _). split.
+  - intros l El. destruct (Sl l El) as (b & E & L). exists b. split; [exact E|].
+    apply ole_Sub; auto. apply (Bl l El).
+  - intros u Eu. destruct (Su u Eu) as (b & E & L). exists b. split; [exact E|].
+    apply ole_Sub; auto. apply wf_base. rewrite <- E. exact Wv.
+Qed.
+
 End Sound.
+
+(* ------------------------------------------------------------------ *)
+(* the per-operation statements with [tr] and [good] unfolded           *)
+(* ------------------------------------------------------------------ *)
+Section Explicit.
+Variable H : hier.
+Hypothesis W : wf_hier H.
+Local Notation len s := (length (vars s)).
+
+Theorem unify_sound_x fuel a b s s' :
+  J H s -> tg H (len s) a -> tg H (len s) b ->
+  unify H fuel true false false a b s = MOk tt s' ->
+  J H s' /\ le H s s' /\ fr H s s' /\
+  forall th, sat H th s' -> Sub H (den th a) (den th b).
+Proof. intros I Ta Tb E. exact (unify_sound H W fuel a b s I Ta Tb tt s' E). Qed.
+
+Theorem bind_sound_x fuel v t s s' :
+  J H s -> v < len s -> tg H (len s) t ->
+  (forall o args, t = O o args -> basic H o = true -> cmpb H (cell_of s v) o) ->
+  bind H fuel v t s = MOk tt s' ->
+  J H s' /\ le H s s' /\ fr H s s' /\ forall th, sat H th s' -> th v = den th t.
+Proof. intros I Lv Tt C E. exact (bind_sound H W fuel v t s I Lv Tt C tt s' E). Qed.
+
+Theorem above_sound_x fuel v new s s' :
+  J H s -> v < len s -> variance H new = [] -> new <> Bottom ->
+  above H fuel v new s = MOk tt s' ->
+  J H s' /\ le H s s' /\ fr H s s' /\ forall th, sat H th s' -> lbo H new (th v).
+Proof. intros I Lv Vn N E. exact (above_sound H W fuel v new s I Lv Vn N tt s' E). Qed.
+
+Theorem below_sound_x fuel v new s s' :
+  J H s -> v < len s -> variance H new = [] -> new <> Top ->
+  below H fuel v new s = MOk tt s' ->
+  J H s' /\ le H s s' /\ fr H s s' /\ forall th, sat H th s' -> ubo H new (th v).
+Proof. intros I Lv Vn N E. exact (below_sound H W fuel v new s I Lv Vn N tt s' E). Qed.
+
+Theorem fix_sound_x fuel pl t s r s' :
+  J H s -> tg H (len s) t -> fix_ty H fuel pl t s = MOk r s' ->
+  tg H (len s') r /\ J H s' /\ le H s s' /\ fr H s s' /\
+  forall th, sat H th s' -> den th r = den th t.
+Proof. intros I Tt E. exact (fix_sound H W fuel pl t s I Tt r s' E). Qed.
+
+Theorem instance_good_x fuel sc s r s' :
+  J H s -> s_constrs sc = [] -> styg H (s_n sc) (s_body sc) ->
+  instance H fuel sc s = MOk r s' ->
+  J H s' /\ (le H s s' /\ fr H s s') /\ tg H (len s') r.
+Proof. intros I Nc Sb E. exact (instance_good H W fuel sc s I Nc Sb r s' E). Qed.
+
+Theorem apply_good_x fuel f x fixb s r s' :
+  J H s -> tg H (len s) f -> tg H (len s) x ->
+  apply H fuel f x fixb s = MOk r s' ->
+  tg H (len s') r /\ J H s' /\ le H s s' /\ fr H s s' /\
+  forall th, sat H th s' -> StepSem H th f x r.
+Proof. intros I Tf Tx E. exact (apply_good H W fuel f x fixb s I Tf Tx r s' E). Qed.
+
+(* the denotation of a term does not depend on the store: it is the same in
+   every store the grounding satisfies (den has no store argument), and it
+   commutes with [follow] *)
+Theorem den_stable th s s' t :
+  sat H th s' -> le H s s' -> sat H th s /\ den th (follow s' t) = den th t /\ den th (follow s t) = den th t.
+Proof.
+  intros S' [_ M]. pose proof (M th S') as S. split; [exact S|].
+  split; apply (den_follow H); assumption.
+Qed.
+End Explicit.
